@@ -139,6 +139,16 @@ class PathEnumerator:
                 raise Unsupported("too many paths")
         return done + live
 
+    def _narrow(self, c: Term):
+        """isinstance(x, T) taken as true narrows the static type of x to T (only ever to a subclass)."""
+        parts = c[1] if c[0] == "and" else (c,)
+        for a in parts:
+            if a[0] == "isinstance" and isinstance(a[2], str):
+                T = self.ev.model.maybe_cls(a[2])
+                cur = self.ev.type_of(a[1])
+                if T is not None and (cur is None or T.is_subclass_of(cur)):
+                    self.ev.set_type(a[1], T)
+
     def _frame(self, fr: Frame, p: Path) -> Frame:
         return Frame(fr.fn, fr.module, p.env, fr.self_cls, fr.depth)
 
@@ -211,6 +221,7 @@ class PathEnumerator:
             pt = p.fork(c)
             pe = p.fork(t_not(c))
             if self.feasible(pt.cond):
+                self._narrow(c)
                 pt.events.append(Event("branch", st, c, extra=True))
                 out.extend(self.block(st.body, [pt], fr))
             if self.feasible(pe.cond):
